@@ -209,10 +209,11 @@ def tamper_variants(tr):
     return out
 
 
-def selftest(run, rows, scenarios):
-    """returns (number of corrupted traces, descriptions of those that were accepted - must be empty)"""
+def selftest(run, rows, scenarios, accepted):
+    """returns (number of corrupted traces, descriptions of those that were accepted - must be empty); the trace that is
+    corrupted is one the refinement check has accepted"""
     groups, _ = traces_of(rows, scenarios)
-    trs = groups.get(('"none"', "FALSE", "FALSE"), [])
+    trs = [t for t in groups.get(('"none"', "FALSE", "FALSE"), []) if t["id"] in accepted]
     pick = None
     for t in trs:
         evs = [e for q in t["procs"] for e in q]
